@@ -185,7 +185,14 @@ def valid(case: Any) -> bool:
                 return False
             if n.get("sweep") and (not n["sweep"].get("vars")):
                 return False
-        return isinstance(case.get("ctx", {}), dict) and isinstance(case.get("data", M.NONE), dict) and "t" in case.get("data", M.NONE)
+        data = case.get("data", M.NONE)
+        if not (isinstance(data, dict) and data.get("t") in ("None", "NoDataType", "FloatDataType") + M.COLLECTIONS):
+            return False
+        if data["t"] == "FloatDataType" and not isinstance(data.get("v"), float):
+            return False
+        if data["t"] in M.COLLECTIONS and not (isinstance(data.get("v"), list) and all(isinstance(x, float) for x in data["v"])):
+            return False
+        return isinstance(case.get("ctx") or {}, dict)
     except Exception:
         return False
 
